@@ -9,7 +9,7 @@ BINS = ["vh-recovery"]
 PID, COMP = "C13", "Recovery"
 
 INVS = ["LossOnlyAfterLaterAck", "LossOnlyBeyondThreshold", "TimeThresholdIsNineEighths", "AckedNeverLost",
-        "CwndAtLeastTwoDatagrams", "ShrinkOnlyOnLossOrEcn", "ShrinkAtMostOncePerRtt", "GrowOnlyOnAckOutsideRecovery",
+        "CwndAtLeastTwoDatagrams", "ShrinkOnlyOnLossOrEcn", "ShrinkAtMostOncePerRtt", "ShrinkOnceBurstLoss", "ShrinkOnceRecoveryCleared", "GrowOnlyOnAckOutsideRecovery",
         "BytesInFlightExact", "NoSendBeyondWindow", "GrantedSendWithinWindow",
         "TimerArmed", "ExpiredTimerActs", "PtoIntervalDoubles", "PtoBackoffNotReset", "AbandonOnlyAfterMaxPto"]
 MC_SAFE = "INIT MCStart\nNEXT MCNext\nCONSTRAINT DepthBound\n" + "".join("INVARIANT %s\n" % i for i in INVS) + "CHECK_DEADLOCK FALSE\n"
